@@ -245,6 +245,22 @@ def splitDense {γ : Type} (i : Nat) (row : List γ) : Except Err (List γ × γ
   | none => .error .indexError
   | some l => .ok (row.take i ++ row.drop (i + 1), l)
 
+/-- `DropOne.headers`: the header names of the features, in feature order (the label's name is gone
+and the names behind it move up by one) -/
+def featureHeaders {η : Type} (i : Nat) (hdr : List η) : List η := hdr.take i ++ hdr.drop (i + 1)
+
+/-- the value stored under a header name in a row with the given headers -/
+def lookupNamed {η γ : Type} [DecidableEq η] (name : η) : List η → List γ → Except Err γ
+  | [], _ => .error .keyError
+  | h :: hs, vs =>
+    if h = name then (match vs with | [] => .error .indexError | v :: _ => .ok v)
+    else lookupNamed name hs vs.tail
+
+/-- `DropOne.__getitem__(name)`: the feature stored under a header name (`KeyError` for the label's
+name and for unknown names) -/
+def featureByName {η γ : Type} [DecidableEq η] (i : Nat) (hdr : List η) (feats : List γ) (name : η) : Except Err γ :=
+  lookupNamed name (featureHeaders i hdr) feats
+
 def splitDenseAll {γ : Type} (i : Nat) : List (List γ) → Except Err (List (List γ × γ))
   | [] => .ok []
   | row :: rest =>
